@@ -149,6 +149,9 @@ func genContainerOpt(t *Tape, yieldProbe bool) *contCase {
 		}
 	}
 	d.PtrForm = t.Draw(2) == 1
+	d.PrePop = d.PtrForm && t.Draw(3) == 0
+	d.EnvSep = []string{"", "", "  ", "\t", "\n", " \t "}[t.Draw(6)]
+	d.EnvPad = []string{"", "", " ", "\n"}[t.Draw(4)]
 	for i, s := range states {
 		d.EnvVars = append(d.EnvVars, i)
 		content, set := drawEnvContent(t, kind, s)
